@@ -1,8 +1,9 @@
 #!/bin/bash
-# Runs every seeded change under seeded/ against ALL implemented checks (one shared load per seed, scratch copy of /repo)
-# and writes seeded/RESULTS.md: which rule of which property catches which seed.
+# DIR=seeded (default) or DIR=refactors. Runs every patch under $DIR/ against ALL implemented checks (one shared load per seed, scratch copy of /repo)
+# and writes $DIR/RESULTS.md: which rule of which property catches which seed.
 export GOFLAGS=-mod=mod GOPROXY=off GOSUMDB=off GOTOOLCHAIN=local; unset GOWORK
 cd "$(dirname "$0")/.." || exit 2
+DIR=${DIR:-seeded}; export DIR
 verif=$PWD
 # baseline: keys firing on the unchanged tree (known findings etc.)
 base=$(mktemp -d /tmp/seedmx-base-XXXXXX)
@@ -26,7 +27,7 @@ export -f one; export verif base
 {
 echo "| seed | verdict | rules of its own property that fire | rules of other properties that fire | change |"
 echo "|---|---|---|---|---|"
-ls -d seeded/*/ | sed 's#/$##' | xargs -P ${PAR:-4} -I{} bash -c 'one {}' | sort
-} > seeded/RESULTS.md
+ls -d $DIR/*/ | sed 's#/$##' | xargs -P ${PAR:-4} -I{} bash -c 'one {}' | sort
+} > $DIR/RESULTS.md
 rm -rf "$base"
-grep -c '| caught |' seeded/RESULTS.md; grep -c 'missed' seeded/RESULTS.md
+grep -c '| caught |' $DIR/RESULTS.md; grep -c 'missed' $DIR/RESULTS.md
